@@ -145,7 +145,7 @@ impl Scenario for Rules {
             };
             rules.push(RuleP { cidr, random: pattern, action });
         }
-        let fragment = rng.chance(1, 8);
+        let fragment = rng.chance(1, 4);
         let plan = RPlan {
             seed: rng.next_u64(),
             rules,
@@ -196,6 +196,9 @@ pub struct Obs {
     pub bytes_from_endpoint: Vec<u8>,
     pub closed_by_endpoint_at: Option<u64>,
     pub listen_ended: bool,
+    /// how the listener reads this very first flight (same bytes, same cuts) when the hello
+    /// does not fit the first record: Some(true) = it has the exact random, Some(false) = absent
+    pub probe_reading: Option<bool>,
 }
 
 fn rules_toml(rules: &[RuleP]) -> String {
@@ -295,6 +298,39 @@ async fn run(plan: RPlan) -> Obs {
     );
     let listening = patht::start(&ep, listen).await;
     let peer_addr = SocketAddr::new(plan.peer.parse().unwrap(), 40_123);
+    {
+        // A hello that does not fit the first record may legitimately be read as "random absent"
+        // or exactly. Which of the two this listener does is found out with a second endpoint
+        // whose rules admit exactly this random and nothing else, fed the same bytes the same way.
+        let wire = build_hello(&plan.hello);
+        if !plan.garbage_first && !hello_in_first_record(&wire, 16 * 1024) {
+            let listen_b: SocketAddr = if plan.dual_stack_listener { "[::]:8443".parse().unwrap() } else { "198.51.100.1:8443".parse().unwrap() };
+            let cfg_b = EpConfig { listen: listen_b, ..EpConfig::default() };
+            let probe_rules = vec![
+                trusttunnel::rules::Rule { cidr: None, client_random_prefix: Some(hex(&plan.hello.random)), action: trusttunnel::rules::RuleAction::Allow },
+                trusttunnel::rules::Rule { cidr: None, client_random_prefix: None, action: trusttunnel::rules::RuleAction::Deny },
+            ];
+            if let Ok(ep_b) = build_with_rules(&cfg_b, probe_rules) {
+                let lb = patht::start(&ep_b, listen_b).await;
+                if let Some(c) = patht::connect_raw(listen_b, peer_addr, EpFaults::default()) {
+                    let gaps: Vec<u64> = plan.cuts.iter().map(|_| plan.gap_us).collect();
+                    let w = {
+                        let c = c.clone();
+                        let cuts = plan.cuts.clone();
+                        tokio::spawn(async move {
+                            let _ = crate::actors::write_pieces(&c, &wire, &cuts, &gaps).await;
+                        })
+                    };
+                    let got = tokio::time::timeout(Duration::from_secs(25), c.read(4096)).await;
+                    obs.probe_reading = Some(matches!(got, Ok(PeerRead::Data(_))));
+                    w.abort();
+                    c.reset();
+                    tokio::time::sleep(Duration::from_millis(10)).await;
+                }
+                lb.task.abort();
+            }
+        }
+    }
     let conn = match patht::connect_raw(listen, peer_addr, EpFaults::default()) {
         Some(c) => c,
         None => {
@@ -503,7 +539,13 @@ fn judge(plan: &RPlan, o: &Obs, out: &mut Outcome) {
     } else if with_random == without {
         with_random
     } else {
-        None // absent or exact: both readings are allowed by the statement
+        // absent or exact: both readings are allowed by the statement, but the listener must
+        // stick to the one it showed the probe endpoint for these very bytes
+        match o.probe_reading {
+            Some(true) => with_random,
+            Some(false) => without,
+            None => None,
+        }
     };
     let mapped = plan.peer.starts_with("::ffff:");
     out.cell(format!(
